@@ -33,6 +33,8 @@ It is included as a transport for secure swarms to be built on.
 */
 type Swarm struct {
 	conn *net.UDPConn
+	// recvSem is held by the one Receive call that is reading the socket.
+	recvSem chan struct{}
 }
 
 func New(laddr string) (*Swarm, error) {
@@ -45,7 +47,8 @@ func New(laddr string) (*Swarm, error) {
 		return nil, err
 	}
 	s := &Swarm{
-		conn: conn,
+		conn:    conn,
+		recvSem: make(chan struct{}, 1),
 	}
 	return s, nil
 }
@@ -60,25 +63,18 @@ func (s *Swarm) Tell(ctx context.Context, a Addr, data p2p.IOVec) error {
 }
 
 func (s *Swarm) Receive(ctx context.Context, th func(p2p.Message[Addr])) error {
+	// One caller reads the socket at a time. The others wait here, where they see their context at once:
+	// callers queued on the socket's own read lock would see neither their context nor the read deadline,
+	// and a cancelled one could be kept waiting for as long as the others keep receiving.
+	select {
+	case s.recvSem <- struct{}{}:
+	case <-ctx.Done():
+		return ctx.Err()
+	}
 	buf := [TheoreticalMTU]byte{}
-	var n int
-	var remoteAddr *net.UDPAddr
-	for {
-		// The socket cannot wait on a context, so wait in short slices and check the context in between.
-		if err := ctx.Err(); err != nil {
-			return err
-		}
-		if err := s.conn.SetReadDeadline(time.Now().Add(receivePollInterval)); err != nil {
-			return err
-		}
-		var err error
-		n, remoteAddr, err = s.conn.ReadFromUDP(buf[:])
-		if err == nil {
-			break
-		}
-		if errors.Is(err, os.ErrDeadlineExceeded) {
-			continue
-		}
+	n, remoteAddr, err := s.readOne(ctx, buf[:])
+	<-s.recvSem
+	if err != nil {
 		return err
 	}
 	th(p2p.Message[Addr]{
@@ -87,6 +83,27 @@ func (s *Swarm) Receive(ctx context.Context, th func(p2p.Message[Addr])) error {
 		Payload: buf[:n],
 	})
 	return nil
+}
+
+// readOne reads one datagram, or gives up when ctx ends.
+func (s *Swarm) readOne(ctx context.Context, buf []byte) (int, *net.UDPAddr, error) {
+	for {
+		// The socket cannot wait on a context, so wait in short slices and check the context in between.
+		if err := ctx.Err(); err != nil {
+			return 0, nil, err
+		}
+		if err := s.conn.SetReadDeadline(time.Now().Add(receivePollInterval)); err != nil {
+			return 0, nil, err
+		}
+		n, remoteAddr, err := s.conn.ReadFromUDP(buf)
+		if err == nil {
+			return n, remoteAddr, nil
+		}
+		if errors.Is(err, os.ErrDeadlineExceeded) {
+			continue
+		}
+		return 0, nil, err
+	}
 }
 
 func (s *Swarm) LocalAddrs() []Addr {
